@@ -614,9 +614,45 @@ func (c *c14) checkWalks(days []string) {
 	n := 24
 	for i := 0; i < n; i++ {
 		var start time.Time
-		if len(days) > 0 && c.rnd()%3 != 0 {
+		switch {
+		case i%4 == 3:
+			// on and around the statutory festival days (boundaries of the 3x rule)
+			y := lo + int(c.rnd()%uint64(hi-lo+1))
+			off := int(c.rnd()%5) - 2
+			var base time.Time
+			switch c.rnd() % 7 {
+			case 0:
+				base = time.Date(y, 1, 1, 0, 0, 0, 0, time.UTC)
+			case 1:
+				base = time.Date(y, 5, 1, 0, 0, 0, 0, time.UTC)
+			case 2:
+				base = time.Date(y, 10, 1+int(c.rnd()%3), 0, 0, 0, 0, time.UTC)
+			case 3, 4, 5:
+				lm, ld := [][2]int{{1, 1 + int(c.rnd()%3)}, {5, 5}, {8, 15}}[c.rnd()%3][0], 0
+				switch lm {
+				case 1:
+					ld = 1 + int(c.rnd()%3)
+				case 5:
+					ld = 5
+				default:
+					ld = 15
+				}
+				func() {
+					defer func() { recover() }()
+					sl := calendar.NewLunarFromYmd(y, lm, ld).GetSolar()
+					base = time.Date(sl.GetYear(), time.Month(sl.GetMonth()), sl.GetDay(), 0, 0, 0, 0, time.UTC)
+				}()
+			default:
+				base = time.Date(y, 4, 4+int(c.rnd()%3), 0, 0, 0, 0, time.UTC)
+			}
+			if base.IsZero() {
+				base = time.Date(y, 1, 1, 0, 0, 0, 0, time.UTC)
+			}
+			start = base.AddDate(0, 0, off)
+			probesC["salary_near_statutory_day"]++
+		case len(days) > 0 && c.rnd()%3 != 0:
 			start = dayTime(days[c.rnd()%uint64(len(days))]).AddDate(0, 0, int(c.rnd()%9)-4)
-		} else {
+		default:
 			start = time.Date(lo+int(c.rnd()%uint64(hi-lo+1)), time.Month(1+c.rnd()%12), int(1+c.rnd()%28), 0, 0, 0, 0, time.UTC)
 		}
 		var steps int
